@@ -225,6 +225,20 @@ def c10(tier):
                         continue
                     cfg = Config(need_iter + [(f, p)])
                     cases.append(("name-vis", "%s/%s" % (r, "gapless" if g else "holes"), cfg, enum_src(r, vals, cfg.attr_lines())))
+        # every documented parameter of a feature at once, for every mode value
+        for f in catalogue.NAMEABLE:
+            need_iter = [("iter", {})] if f == "range" else []
+            for m in (catalogue.MODED.get(f) or [None]):
+                if f == "iter" and (m == "match" or (m == "range" and not g)):
+                    continue
+                for vis in catalogue.VIS_VALUES:
+                    p_ = {"name": "zz_all", "vis": vis}
+                    if m:
+                        p_["mode"] = m
+                    if f in catalogue.STRUCT_NAMED:
+                        p_["struct_name"] = "ZzAll"
+                    cfg = Config(need_iter + [(f, p_)])
+                    cases.append(("all-params", "%s/%s" % (r, "gapless" if g else "holes"), cfg, enum_src(r, vals, cfg.attr_lines())))
         for f in catalogue.STRUCT_NAMED:
             cfg = Config([(f, {"struct_name": "ZzStruct"})])
             cases.append(("struct_name", "%s/%s" % (r, "gapless" if g else "holes"), cfg, enum_src(r, vals, cfg.attr_lines())))
